@@ -1,7 +1,7 @@
 #!/usr/bin/env python3
 """False-alarm test: apply each behaviour-preserving change (<root>/<group>/<v>/patch.diff) in a
 scratch mirror and run the quick tier of the given checks (default: all claimed); every check
-must exit 0. usage: try_benign.py <root> [N=3] [--props C01,C02] [group/variant ...]"""
+must exit 0. usage: try_benign.py <root> [N=3] [--props C01,C02] [dir-with-patch.diff relative to root ...]   (VERIF_SEED is passed on)"""
 import json, os, subprocess, sys, threading, queue
 root = sys.argv[1]; args = sys.argv[2:]
 N = 3; props = None; items = []
@@ -13,7 +13,7 @@ while i < len(args):
 if props is None:
     props = [c['property_id'] for c in json.load(open('/verif/MANIFEST.json'))['checks']]
 if not items:
-    items = sorted(f'{g}/{v}' for g in os.listdir(root) if os.path.isdir(f'{root}/{g}') for v in os.listdir(f'{root}/{g}') if os.path.isfile(f'{root}/{g}/{v}/patch.diff'))
+    items = sorted(os.path.relpath(d, root) for d, _, fs in os.walk(root) if 'patch.diff' in fs)
 q = queue.Queue(); [q.put(x) for x in items]
 lock = threading.Lock(); alarms = []
 def worker(k):
